@@ -258,6 +258,16 @@ def install():
                             continue
                         setattr(obj, mname, make_wrapper(m, qual, True))
                         wrapped.append(qual)
+                    elif isinstance(m, property) and m.fset is not None and \
+                            not mname.startswith("_"):
+                        # property setters take data too (e.g. Grid.data = array)
+                        f = m.fset
+                        if getattr(f, "__hyverif_wrapped__", False):
+                            continue
+                        q2 = qual + ".setter"
+                        setattr(obj, mname, property(m.fget, make_wrapper(f, q2, True),
+                                                     m.fdel, m.__doc__))
+                        wrapped.append(q2)
                     elif isinstance(m, classmethod):
                         f = m.__func__
                         if getattr(f, "__hyverif_wrapped__", False):
